@@ -386,8 +386,8 @@ func init() {
 					for _, kw := range t.kws {
 						for v := 0; v < 2; v++ {
 							ths := all
-							if v == 1 && !w.Thorough() {
-								ths = c28SpecialThemes // quick: the second value of each keyword only under the special-rule themes
+							if !w.Thorough() {
+								ths = c28SpecialThemes // quick: single statements under default, one dark and the four special-rule themes
 							}
 							for _, th := range ths {
 								w.Eval("export", c28In{Src: t.base + c28Stmt(t, kw, v), Theme: th}.String())
@@ -411,7 +411,7 @@ func init() {
 			})
 			for _, t := range c28Targets {
 				t := t
-				ths := []int64{300, 303}
+				ths := []int64{303} // c4: the theme whose rules depend on which styles the user left unset
 				if w.Thorough() {
 					ths = c28SpecialThemes
 				}
@@ -428,11 +428,11 @@ func init() {
 				})
 			}
 			w.Phase("corpus x special themes", func() {
-				ths := []int64{0, 300, 303}
+				ths := []int64{303}
 				if w.Thorough() {
 					ths = c28SpecialThemes
 				}
-				for _, s := range c28CorpusInputs(w.Pick(250, 1500)) {
+				for _, s := range c28CorpusInputs(w.Pick(100, 1500)) {
 					for _, th := range ths {
 						w.Eval("export", c28In{Src: s, Theme: th}.String())
 					}
